@@ -100,13 +100,16 @@ def main():
     if thorough:
         ms += [models.pair_atom(), models.mixed_sites(), models.hubbard_atom(U=0, eps=4)]
     scen = []
-    for m in ms:
+    for mi, m in enumerate(ms):
         quads = [[0, 1, 1, 0], [0, 0, 0, 0], [1, 0, 1, 0]] if not thorough else [[0, 1, 1, 0], [0, 0, 0, 0], [1, 0, 1, 0], [0, 1, 0, 1], [1, 1, 1, 1]]
         triples = [[a, b, d] for a in (-2, -1, 0, 1) for b in (-2, -1, 0, 1) for d in (-2, -1, 0, 1)]
         if models.nmodes(m) >= 3:
             quads = quads + [[0, 2, 2, 0], [0, 2, 0, 2], [2, 0, 0, 2]]
         m = dict(m)
-        m["queries"] = [{"q": "vertex", "beta": "3.0", "quads": quads, "windows": [2, 0, 3, 1, 2] if thorough else [2, 0, 1, 2], "triples": triples}]
+        # a temperature scan in one process: every Vertex4 uses its own beta (nothing may be shared between vertex objects)
+        betas = [["3.0", "1.25"], ["7.5"], ["2.0"], ["3.0"], ["0.75"], ["5.0"], ["3.0"], ["1.5"]][mi % 8]
+        m["queries"] = [{"q": "vertex", "beta": b, "quads": quads if bi == 0 else quads[:1], "windows": ([2, 0, 3, 1, 2] if thorough else [2, 0, 1, 2]) if bi == 0 else [1],
+                         "triples": triples} for bi, b in enumerate(betas)]
         scen.append(m)
     recs, crashed = pv.run_driver_resilient(exe, scen, timeout=1500)
     for s in scen:
